@@ -1,0 +1,7 @@
+//go:build !verif
+
+package commitlog
+
+func verifCrashPoint(name string) {}
+
+func verifGate(name string) {}
